@@ -14,6 +14,7 @@
 4. GatewayRoutingTrace.tla recomputes every decision.
 """
 import json
+import random
 
 import _gw
 import vlib
@@ -26,11 +27,14 @@ def run(c):
         c.judge_trace(r, c.replay)
         account(c, [c.replay])
         return
-    drv, _, g = _gw.side_by_side(
+    drv, _, g, _, gc = _gw.side_by_side(
         lambda: c.build("gwroute"),
         lambda: c.mc("GatewayRouting", "GatewayRoutingMC.%s.cfg" % c.tier, workers=4, timeout=3000),
         lambda: _gw.generator(c, "GatewayRoutingGen", "GatewayRoutingGen.%s.cfg" % c.tier),
-        c=c, names=("build", "mc", "gen"))
+        lambda: c.mc("GatewayRoutingConc", "GatewayRoutingConcMC.%s.cfg" % c.tier, workers=4, timeout=3000),
+        lambda: _gw.generator(c, "GatewayRoutingConcGen", "GatewayRoutingConcGen.%s.cfg" % c.tier),
+        c=c, names=("build", "mc", "gen", "mc-conc", "gen-conc"))
+    conc_traces = concurrent(c, drv, gc)
     outs = [g.out]
     if c.thorough:   # policies of three rules over a small rule alphabet
         outs.append(_gw.generator(c, "GatewayRoutingGen", "GatewayRoutingGen.thorough3.cfg").out)
@@ -78,8 +82,63 @@ def run(c):
     if nd:
         c.notes.append("drift lines: %d" % nd)
     account(c, traces)
+    account_conc(c, conc_traces)
     c.cov["exhaustive"] = True
     c.notes.append("tables=%d policies=%d packets=%d" % (len(scn["table"]), len(scn["pol"]), len(lists["pkts"])))
+
+
+def concurrent(c, drv, gc):
+    """Run-time updates: every TLC-enumerated update sequence is executed by one writer against three
+    concurrent readers on a real AtomicRoutingTable; the recorded history is validated by TLC."""
+    setup = [v for (k, v) in _gw.printed(gc.out, "LIST", nstr=2) if k == "conc"]
+    seqs = []
+    seen = set()
+    for (s,) in _gw.printed(gc.out, "SCN"):
+        k = json.dumps(s, sort_keys=True)
+        if k not in seen:
+            seen.add(k)
+            seqs.append(s["ops"])
+    if not setup or not seqs:
+        raise vlib.Infra("concurrent generator printed nothing")
+    seqs.sort(key=lambda x: json.dumps(x))
+    rnd = random.Random(c.seed * 7919 + 42)
+    limit = 600 if c.thorough else 150
+    total = len(seqs)
+    if len(seqs) > limit:
+        seqs = rnd.sample(seqs, limit)
+    traces = []
+    for i, chunk in enumerate(_gw.deal(seqs, 4 if c.thorough else 2)):
+        f = "%s/conc-scn-%d.ndjson" % (c.scratch, i)
+        with open(f, "w") as fh:
+            for ops in chunk:
+                fh.write(json.dumps({"ev": "conc", "tables": setup[0]["tables"], "pkts": setup[0]["pkts"],
+                                     "ops": ops}) + "\n")
+        t = "%s/conc-trace-%d.ndjson" % (c.scratch, i)
+        c.run_driver(drv, ["-in", f, "-out", t])
+        traces.append(t)
+    _gw.validate_all(c, "GatewayRoutingConcTrace", "GatewayRoutingConcTrace.cfg", traces)
+    c.notes.append("concurrent update sequences: %d of %d enumerated" % (len(seqs), total))
+    return traces
+
+
+def account_conc(c, traces):
+    ntr = reads = 0
+    mixed = set()
+    for t in traces:
+        for tr in vlib.split_traces(t):
+            ntr += 1
+            ws = [e for e in tr if e["ev"] == "w"]
+            for e in tr:
+                if e["ev"] != "r":
+                    continue
+                reads += 1
+                # non-trivial: the lookup overlapped at least one update
+                if any(w["inv"] < e["res"] and w["res"] > e["inv"] for w in ws):
+                    mixed.add(json.dumps([[w["op"], w["t"], w["i"], w["j"]] for w in ws]) + str(e["pkt"]))
+    c.cov["traces_validated_against_impl"] += ntr
+    c.cov["evaluations"] += reads
+    c.cov["distinct_nontrivial"] += len(mixed)
+    c.notes.append("concurrent lookups: %d, overlapping an update (distinct update sequence x packet): %d" % (reads, len(mixed)))
 
 
 def account(c, traces):
